@@ -1115,6 +1115,9 @@ func (e *LogEntry) Describe() string {
 	st := "ok"
 	if e.Err != nil {
 		st = "err:" + string(kerrors.ReasonForError(e.Err))
+		if kerrors.IsBadRequest(e.Err) {
+			st += "(" + e.Err.Error() + ")"
+		}
 		if kerrors.ReasonForError(e.Err) == metav1.StatusReasonUnknown {
 			st = "err:" + strings.SplitN(e.Err.Error(), ":", 2)[0]
 		}
